@@ -420,7 +420,7 @@ def explore(acc, cfg, depth, shard_i, nshards):
         w.restore_clock()
 
 
-def check_two_cookies(acc):
+def check_two_cookies(acc, part=0, nparts=1):
     """Two SignedCookieMiddleware instances (own names) behind the other bundled response-rewriting middlewares, a
     client that accepts gzip, bodies that compress: every history of <= 3 steps over {write first, write second,
     write both, read}; what each cookie presents is what was stored in it."""
@@ -438,27 +438,50 @@ def check_two_cookies(acc):
             sess['u'] = request.args['v']
         if op in ('second', 'both'):
             prefs['p'] = request.args['v']
-        return Response(json.dumps(before, sort_keys=True) + ' ' * 3000, status=201)
+        return Response(json.dumps(before, sort_keys=True) + ' ' * 3000, status=200 if request.args.get('ok') else 201)
+    combo_k = [0]
     for expiry in (EXPIRY, 0):
         for front in ([GzipMiddleware()], [HTTPCacheMiddleware(), GzipMiddleware()], [StatsMiddleware()], []):
             for ae in ('gzip', None):
-                for hist in itertools.product(('first', 'second', 'both', 'read'), repeat=3):
+                combo_k[0] += 1
+                if combo_k[0] % nparts != part:
+                    continue
+                # named: the two middlewares differ in arg_name and cookie_name / in arg_name only (default cookie names)
+                # cond: the client revalidates (If-None-Match with the last ETag it saw) and the endpoint answers 200
+                for hist, named, cond in itertools.product(itertools.product(('first', 'second', 'both', 'read'), repeat=3),
+                                                           (True, False), (False, True)):
+                    nm = (lambda n: {'cookie_name': n}) if named else (lambda n: {})
                     app = Application([('/', ep)], middlewares=front + [
-                        SignedCookieMiddleware(secret_key=KEY, arg_name='sess', cookie_name='sid', expiry=expiry),
-                        SignedCookieMiddleware(secret_key=b'second-key', arg_name='prefs', cookie_name='prf', expiry=expiry)])
+                        SignedCookieMiddleware(secret_key=KEY, arg_name='sess', expiry=expiry, **nm('sid')),
+                        SignedCookieMiddleware(secret_key=b'second-key', arg_name='prefs', expiry=expiry, **nm('prf'))])
                     jar, model = {}, {'sess': {}, 'prefs': {}}
+                    etag = None
                     for j, op in enumerate(hist + ('read',)):
                         hdrs = {'Cookie': '; '.join('%s=%s' % kv for kv in sorted(jar.items()))} if jar else {}
                         if ae:
                             hdrs['Accept-Encoding'] = ae
-                        res = wsgi.call(app, '/', 'GET', query='op=%s&v=v%d' % (op, j), headers=hdrs)
+                        if cond and etag:
+                            hdrs['If-None-Match'] = etag
+                        res = wsgi.call(app, '/', 'GET', query='op=%s&v=v%d%s' % (op, j, '&ok=1' if cond else ''), headers=hdrs)
                         acc.transitions += 1
                         acc.validated += 1
                         case = {'two_cookies': True, 'expiry': expiry, 'front': [type(m).__name__ for m in front], 'ae': ae,
-                                'history': list(hist[:j + 1])}
-                        if res.raised is not None or res.code != 201:
+                                'history': list(hist[:j + 1]), 'named': named, 'conditional': cond}
+                        if res.raised is not None or res.code not in ((200, 304) if cond else (201,)):
                             acc.violation('C16:two-cookies:status', 'answered %s %r; %r' % (res.status, res.raised, case), case)
                             break
+                        etag = res.header('ETag') or etag
+                        if res.code == 304:
+                            # nothing to read: the client keeps the body it has; the cookies of this response count
+                            acc.add('two_cookies_304')
+                            if op in ('first', 'both'):
+                                model['sess'] = dict(model['sess'], u='v%d' % j)
+                            if op in ('second', 'both'):
+                                model['prefs'] = dict(model['prefs'], p='v%d' % j)
+                            for sc in res.header_all('Set-Cookie'):
+                                name, _, rest = sc.partition('=')
+                                jar[name] = rest.split(';', 1)[0]
+                            continue
                         body = res.body
                         if (res.header('Content-Encoding') or '').lower() == 'gzip':
                             import gzip as _gz
@@ -542,8 +565,7 @@ def shard(tier, i, n, seed):
         explore(acc, cfg, depth, i, n)
         if acc.extra.get('cap_hit'):
             break
-    if i == 4 % n:
-        check_two_cookies(acc)
+    check_two_cookies(acc, i, n)
     if i == 5 % n:
         check_sibling_cookie_apps(acc)
     return acc
